@@ -83,6 +83,21 @@ func genNumber(r *rand.Rand, o ValOpts) cty.Value {
 	case 8, 9:
 		return cty.MustParseNumberVal(decimalPool[r.Intn(len(decimalPool))])
 	case 10:
+		if r.Intn(3) == 0 {
+			// few mantissa bits, magnitude outside (or at the edge of) float64's exponent
+			// range: m * 2^e with e around -1100 (below the smallest subnormal), around
+			// -1074..-1022 (subnormal: fewer than 53 bits available) or around +1023
+			m := int64(2*r.Intn(1<<20) + 1)
+			if r.Intn(2) == 0 {
+				m = int64(2*r.Int63n(1<<52) + 1)
+			}
+			e := []int{-1160, -1100, -1080, -1074, -1060, -1030, -1022, 960, 1000, 1023}[r.Intn(10)] + r.Intn(8)
+			f := new(big.Float).SetPrec(512).SetMantExp(new(big.Float).SetPrec(512).SetInt64(m), e)
+			if r.Intn(2) == 0 {
+				f.Neg(f)
+			}
+			return cty.NumberVal(f)
+		}
 		// low precision big.Float
 		f := new(big.Float).SetPrec(uint(1 + r.Intn(30))).SetFloat64(float64(r.Intn(2000)-1000) / 8)
 		return cty.NumberVal(f)
